@@ -1,10 +1,7 @@
 (* C08 Package-type rules: pypi and nuget names, maven namespace, others untouched *)
 Load "coq/props/Hdr".
 From PM Require Import Lower2 Pypi C08rel C15.
-Lemma src_rt : rt_ok cfg. Proof. apply conds_rt_ok. vm_compute. reflexivity. Qed.
-Lemma src_tbl : tbl_ok cfg. Proof. apply conds_tbl_ok. vm_compute. reflexivity. Qed.
-Lemma src_cfg_ok : cfg_ok cfg. Proof. exact (rt_cfg _ src_rt). Qed.
-Ltac sc := sidecond_with src_rt src_tbl.
+Lemma src_cfg_ok : cfg_ok cfg. Proof. sc. Qed.
 (* nuget: every character replaced by its Unicode lower-case mapping, nothing else changed *)
 Theorem C08_nuget : forall n, utf8_valid n = true -> lowercase_str cfg n = spec_lower cfg n.
 Proof. intros n. apply lowercase_str_spec; sc. Qed.
